@@ -336,26 +336,32 @@ def findFirst (code : Nat) : List Attr → Option Attr
   | [] => none
   | a :: rest => if a.code = code then some a else findFirst code rest
 
+/-- the AGGREGATOR half of `reconcile_as4`: the new list and `ignore_as4_path` -/
+def reconAgg (as4Agg : Option Attr) (attrs : List Attr) : List Attr × Bool :=
+  match as4Agg, findFirst 7 attrs with
+  | some a4, some agg =>
+      (match agg.data.binary?, a4.data.binary? with
+       | some ab, some b4 =>
+          if beNat (ab.take 4) = TRANS_ASN then (replaceFirst 7 ⟨7, agg.flags, .bin b4⟩ attrs, false)
+          else (attrs, true)
+       | _, _ => (attrs, false))
+  | _, _ => (attrs, false)
+
+/-- the AS_PATH half of `reconcile_as4` -/
+def reconPath (as4Path : Option Attr) (attrs : List Attr) : List Attr :=
+  match as4Path, findFirst 2 attrs with
+  | some a4, some ap =>
+      (match ap.data.binary?, a4.data.binary? with
+       | some pb, some b4 => replaceFirst 2 ⟨2, ap.flags, .bin (asPathReconcile pb b4)⟩ attrs
+       | _, _ => attrs)
+  | _, _ => attrs
+
 /-- `reconcile_as4` (inputs are decoder-validated, so the `binary().unwrap()`s cannot fail) -/
 def reconcileAs4 (attrs : List Attr) : List Attr :=
-  let (as4Path, attrs) := removeFirst 17 attrs
-  let (as4Agg, attrs) := removeFirst 18 attrs
-  let (attrs, ignore) :=
-    match as4Agg, findFirst 7 attrs with
-    | some a4, some agg =>
-        (match agg.data.binary?, a4.data.binary? with
-         | some ab, some b4 =>
-            if beNat (ab.take 4) = TRANS_ASN then (replaceFirst 7 ⟨7, agg.flags, .bin b4⟩ attrs, false)
-            else (attrs, true)
-         | _, _ => (attrs, false))
-    | _, _ => (attrs, false)
-  if ignore then attrs
-  else match as4Path, findFirst 2 attrs with
-    | some a4, some ap =>
-        (match ap.data.binary?, a4.data.binary? with
-         | some pb, some b4 => replaceFirst 2 ⟨2, ap.flags, .bin (asPathReconcile pb b4)⟩ attrs
-         | _, _ => attrs)
-    | _, _ => attrs
+  let r17 := removeFirst 17 attrs
+  let r18 := removeFirst 18 r17.2
+  let ra := reconAgg r18.1 r18.2
+  if ra.2 then ra.1 else reconPath r17.1 ra.1
 
 /-! #### OPEN -/
 
@@ -365,6 +371,85 @@ def groups (n : Nat) (bs : Bytes) : List Bytes :=
   if h : n = 0 ∨ bs.length < n then [] else bs.take n :: groups n (bs.drop n)
 termination_by bs.length
 decreasing_by simp [List.length_drop]; omega
+
+/-! #### label-carrying NLRI (`vpn.rs`, `labeled.rs`, `mpls.rs`, `rd.rs`) -/
+
+/-- `MplsLabelStack::decode`: 3-octet labels until the bottom-of-stack bit; `none` = the input ends first.
+    Returns the label values and the rest. -/
+def readLabels : Nat → Bytes → Option (List Nat × Bytes)
+  | 0, _ => none
+  | fuel + 1, bs =>
+      match bs with
+      | a :: b :: c :: rest =>
+          let raw := a * 65536 + b * 256 + c
+          if raw % 2 = 1 then some ([raw / 16], rest)
+          else match readLabels fuel rest with
+            | some (ls, r) => some (raw / 16 :: ls, r)
+            | none => none
+      | _ => none
+
+/-- `RouteDistinguisher::decode` -/
+def readRd (b : Bytes) : Option Rd :=
+  if b.length ≠ 8 then none
+  else
+    let ty := beNat (b.take 2)
+    if ty = 0 then some ⟨0, beNat ((b.drop 2).take 2), beNat (b.drop 4)⟩
+    else if ty = 1 ∨ ty = 2 then some ⟨ty, beNat ((b.drop 2).take 4), beNat (b.drop 6)⟩
+    else none
+
+/-- `VpnV4Nlri::decode` / `VpnV6Nlri::decode` on exactly the bytes of one NLRI (`alen` = 4 / 16) -/
+def vpnDecode (alen : Nat) (bs : Bytes) : Option NStruct :=
+  if bs.length < 12 then none
+  else match bs with
+    | [] => none
+    | total :: rest =>
+        if total < 88 then none
+        else match readLabels rest.length rest with
+          | none => none
+          | some (ls, r) =>
+              if total < 24 * ls.length + 64 then none
+              else
+                let pbits := total - 24 * ls.length - 64
+                if pbits > 8 * alen then none
+                else if r.length < 8 then none
+                else match readRd (r.take 8) with
+                  | none => none
+                  | some rd =>
+                      let a := r.drop 8
+                      if a.length ≠ ceil8 pbits then none
+                      else some (.vpn ls rd (a ++ List.replicate (alen - a.length) 0) pbits)
+
+/-- `LabeledV4Nlri::decode` / `LabeledV6Nlri::decode` on exactly the bytes of one NLRI; in MP_UNREACH_NLRI the three
+    octets after the length are the compatibility field and the label stack reads `[0]` -/
+def labDecode (alen : Nat) (reach : Bool) (bs : Bytes) : Option NStruct :=
+  if bs.length < 4 then none
+  else match bs with
+    | [] => none
+    | total :: rest =>
+        if total < 24 then none
+        else
+          let lr : Option (List Nat × Bytes) := if reach then readLabels rest.length rest else some ([0], rest.drop 3)
+          match lr with
+          | none => none
+          | some (ls, a) =>
+              if total < 24 * ls.length then none
+              else
+                let pbits := total - 24 * ls.length
+                if pbits > 8 * alen then none
+                else if a.length ≠ ceil8 pbits then none
+                else some (.lab ls (a ++ List.replicate (alen - a.length) 0) pbits)
+
+/-- the decoder of the structured NLRI's family, on its own bytes -/
+def NStruct.decodeLike (s : NStruct) (reach : Bool) (bs : Bytes) : Option NStruct :=
+  match s with
+  | .vpn _ _ addr _ => vpnDecode addr.length bs
+  | .lab _ addr _ => labDecode addr.length reach bs
+
+/-- `nlri_equiv` of the harness: Rust `==`, except that a withdrawn labeled prefix is compared on the prefix only -/
+def NStruct.equiv (reach : Bool) (a b : NStruct) : Bool :=
+  match a, b with
+  | .lab _ a1 m1, .lab _ a2 m2 => if reach then a == b else (a1 == a2 && m1 == m2)
+  | _, _ => a == b
 
 /-- `String::from_utf8(b).unwrap_or_default()` as bytes -/
 def utf8OrEmpty (b : Bytes) : Bytes := if utf8Valid b then b else []
